@@ -928,6 +928,64 @@ pub fn run_c17(ctx: &Ctx, pool: &[PoolKey]) {
 		});
 	}
 
+	// directed: name constraints holding a directory name the import cannot represent (an attribute type twice: once by
+	// its named variant, once as a custom type with the same OID). rcgen writes such a certificate; importing it may be
+	// refused, but an import that succeeds must hold as many subtrees of each kind as the certificate does.
+	if ctx.replay.as_ref().map_or(true, |r| r.workload == "unrepresentable-subtree") {
+		for i in 0..48u64 {
+			if let Some(r) = &ctx.replay {
+				if r.index != i {
+					continue;
+				}
+			}
+			let case = CaseId::new("unrepresentable-subtree", ctx.seed, i);
+			let mut rng = case.rng();
+			let std_ty = STD_TYPES[(i % 6) as usize].clone();
+			let twice = vec![
+				AttrSpec { ty: std_ty.clone(), kind: StrKind::Utf8, text: "first".into() },
+				AttrSpec { ty: DnTy::Custom(std_ty.oid()), kind: StrKind::Utf8, text: "second".into() },
+			];
+			let mut others: Vec<SubtreeSpec> = (0..(i / 6 % 3)).map(|_| if rng.chance(1, 2) { SubtreeSpec::Dns(gen_host(&mut rng)) } else { SubtreeSpec::Ip(gen_cidr(&mut rng)) }).collect();
+			others.insert(rng.below(others.len() as u64 + 1) as usize, SubtreeSpec::Dir(twice));
+			let mut spec = ParamSpec::minimal();
+			spec.is_ca = IsCaSpec::Ca(None);
+			spec.nc = Some(match i / 18 {
+				0 => (others, vec![]),
+				1 => (vec![], others),
+				_ => (vec![SubtreeSpec::Dns(gen_host(&mut rng))], others),
+			});
+			let key = locals[(i % locals.len() as u64) as usize];
+			let text = format!("key={} spec={:?}", key.label, spec);
+			ctx.count("eval:import:unrepresentable-subtree");
+			let r = crate::guard(|| -> Result<(), String> {
+				let cert = spec.to_rcgen(None).self_signed(&key.kp).map_err(|e| format!("generation failed: {}", e))?;
+				let view = x509::parse_certificate(cert.der()).map_err(|e| format!("derx: {}", e))?;
+				let (wp, wx) = ext_value(&view, x509::OID_NC).map(x509::parse_nc).transpose()?.unwrap_or_default();
+				match CertificateParams::from_ca_cert_der(cert.der()) {
+					Err(_) => ctx.count("eval:unrepresentable_subtree_refused"),
+					Ok(imp) => {
+						ctx.count("eval:unrepresentable_subtree_imported");
+						let (gp, gx) = imp.name_constraints.as_ref().map_or((0, 0), |n| (n.permitted_subtrees.len(), n.excluded_subtrees.len()));
+						if (gp, gx) != (wp.len(), wx.len()) {
+							ctx.violation(
+								"c17:import:subtree-dropped",
+								&case,
+								&text,
+								&format!("the certificate holds {} permitted / {} excluded subtrees, the imported parameters {} / {}", wp.len(), wx.len(), gp, gx),
+							);
+						}
+					},
+				}
+				Ok(())
+			});
+			match r {
+				Err(p) => ctx.violation("c17:panic", &case, &text, &p),
+				Ok(Err(e)) => ctx.note(format!("unrepresentable-subtree #{}: {}", i, e)),
+				Ok(Ok(())) => {},
+			}
+		}
+	}
+
 	// OpenSSL-made CA certificates with the same kinds of fields
 	let n = ctx.scale(300, 4_000);
 	if ctx.replay.as_ref().map_or(true, |r| r.workload == "openssl-ca") {
